@@ -14,6 +14,19 @@ F: judged on the implementation's own behaviour, by the clauses of the statement
    wrong-type      a value whose type the option does not admit is rejected, and the error message
                    names the option;
    toml-roundtrip  dump -> load reproduces every option (override_from_toml_string, file layer, CLI).
+Shared-object cases (k = "shared"): ONE pty child keeps several objects alive — TupimageConfig objects built in code
+   (pre-set through override_from_toml_string/_file, override_from_dict / override, override_from_env), 2..4 terminals
+   built from them (the same object passed to several constructors, each with its own env / keyword / config_overrides
+   layers), terminals built from "DEFAULT" or a file in between, later property assignments.  After EVERY step every
+   object alive is inspected (each terminal's effective configuration and the caller's objects).
+   F: the object the step acts on: an option some layer of THIS step sets has the winner's value and a provenance naming
+      it; every other option keeps the value and provenance the object (for a constructor: the configuration it was
+      given) had before.  Every OTHER object: each option's (value, provenance) pair is the one it had before the step,
+      or — when it is the very object the step worked on (the unchanged constructor adopts the caller's object, so the
+      terminal's configuration and the caller's object are one) — the pair of the object acted on; a value that stayed
+      with a provenance that moved (or the reverse) names a layer the object never received.
+   K: `c17 chain` (Tup.Config.applyFile / applyDict / applyEnv / applyAfterFile + expandTmux on one object, the
+      terminal's configuration being the object it was given) against every inspected object after every step.
 """
 from __future__ import annotations
 
@@ -665,8 +678,345 @@ def _check_case(ctx: Ctx, c: dict):
                     if diff:
                         ctx.violation("dump -> config file -> constructor does not reproduce every option", c, {"differs": diff},
                                       key="toml-roundtrip-file:" + ",".join(sorted(OPTS.get(n, "other").split("|")[0] for n in diff)))
+    elif k == "shared":
+        check_shared(ctx, c)
     else:
         raise ValueError(k)
+
+
+# ------------------------------------------------------------------------------------------------
+# several configuration objects / terminals alive in one process
+# ------------------------------------------------------------------------------------------------
+_SHARED_CHILD = r"""
+import os
+cfgs, terms, order = {}, {}, []
+def target(name):
+    return cfgs[name] if name in cfgs else terms[name]._config
+def snap():
+    out = []
+    for name in order:
+        cfg = target(name)
+        names = list(type(cfg).__annotations__)
+        out.append([name, id(cfg), {n: getattr(cfg, n) for n in names}, {n: cfg.get_provenance(n) for n in names}])
+    return out
+def set_env(env, tmux):
+    for k in [k for k in os.environ if k.startswith("TUPIMAGE_")]:
+        del os.environ[k]
+    os.environ.pop("TMUX", None)
+    os.environ["TERM"] = "tmux-256color" if tmux else "xterm-256color"
+    if tmux:
+        os.environ["TMUX"] = "/tmp/fake,1,0"
+    for k, v in env.items():
+        os.environ["TUPIMAGE_" + k.upper()] = v
+fresh = tupimage.TupimageConfig()
+result = [{"defaults": {n: getattr(fresh, n) for n in type(fresh).__annotations__}}]
+try:
+    for st in steps:
+        try:
+            op = st["op"]
+            if op == "cfg":
+                cfgs[st["c"]] = tupimage.TupimageConfig()
+                order.append(st["c"])
+            elif op == "toml":
+                if st["how"] == "file":
+                    target(st["on"]).override_from_toml_file(st["path"])
+                else:
+                    target(st["on"]).override_from_toml_string(st["text"], provenance="set from file " + st["path"])
+            elif op == "dict":
+                d = dict(st["items"])
+                if st["how"] == "prop":
+                    for k, v in d.items():
+                        setattr(terms[st["on"]], k, v)
+                elif st["how"] == "override":
+                    target(st["on"]).override(provenance=st.get("label"), **d)
+                else:
+                    if st.get("label") is not None:
+                        d["provenance"] = st["label"]
+                    target(st["on"]).override_from_dict(d)
+            elif op == "envload":
+                set_env(st["env"], False)
+                target(st["on"]).override_from_env()
+            elif op == "new":
+                set_env(st["env"], st.get("tmux"))
+                kw = dict(st["kwargs"])
+                if st.get("kw_label") is not None:
+                    kw["provenance"] = st["kw_label"]
+                if st.get("overrides") is not None:
+                    ov = dict(st["overrides"])
+                    if st.get("ov_label") is not None:
+                        ov["provenance"] = st["ov_label"]
+                    kw["config_overrides"] = ov
+                conf = st["config"]
+                terms[st["t"]] = tupimage.TupimageTerminal(config=cfgs[conf["c"]] if "c" in conf else conf["path"],
+                                                           id_database=st["db"], **kw)
+                order.append(st["t"])
+            else:
+                raise RuntimeError("unknown op " + op)
+        except Exception as e:
+            import traceback
+            result.append({"error": {"type": type(e).__name__, "msg": str(e), "tb": traceback.format_exc()[-600:]}})
+            break
+        result.append({"snap": snap()})
+finally:
+    for t in terms.values():
+        H.T = t
+        H.close_terminal()
+"""
+
+
+def _enc_plain(x):
+    """a structure of plain dicts / lists whose leaves are already in enc form -> enc form"""
+    if isinstance(x, dict):
+        if "$" in x:
+            return x
+        return {"$": "dict", "v": [[k, _enc_plain(v)] for k, v in x.items()]}
+    if isinstance(x, list):
+        return [_enc_plain(v) for v in x]
+    return x
+
+
+def _pairs(items):
+    """[[opt, value]…] of a layer -> enc list of 2-tuples (dict(...) in the child)"""
+    return [{"$": "tuple", "v": [k, v]} for k, v in items]
+
+
+def run_shared(c: dict):
+    """the steps of a shared-object case on the real code, in ONE child -> (results, per-step run-time facts)"""
+    h = host()
+    steps, facts = [], []
+    for i, st in enumerate(c["steps"]):
+        op = st["op"]
+        e = {"op": op}
+        fact = {}
+        if op == "cfg":
+            e["c"] = st["c"]
+        elif op == "toml":
+            text = "".join(toml.dumps({k: plain(v)}) for k, v in st["items"])
+            e.update(on=st["on"], how=st["how"], text=text)
+            if st["how"] == "file":
+                path = str(h.dir / "config" / f"shared_pre{i}.toml")
+                Path(path).write_text(text, encoding="utf-8")
+            else:
+                path = st["path"]
+            e["path"] = fact["path"] = path
+        elif op == "dict":
+            e.update(on=st["on"], how=st["how"], items=_pairs(st["items"]), label=st.get("label"))
+        elif op == "envload":
+            e.update(on=st["on"], env=_enc_plain(dict(st["env"])))
+        elif op == "new":
+            conf = st["config"]
+            if isinstance(conf, dict) and "file" in conf:
+                path = str(h.dir / "config" / f"shared_{st['t']}.toml")
+                Path(path).write_text("".join(toml.dumps({k: plain(v)}) for k, v in conf["file"]), encoding="utf-8")
+                fact["path"] = path
+                econf = {"path": path}
+            elif conf == "DEFAULT":
+                econf = {"path": "DEFAULT"}
+            else:
+                econf = {"c": conf}
+            e.update(t=st["t"], config=_enc_plain(econf), env=_enc_plain(dict(st.get("env") or {})), tmux=bool(st.get("tmux")),
+                     kwargs=_pairs(st.get("kwargs") or []), kw_label=st.get("kw_label"),
+                     overrides=None if st.get("overrides") is None else _pairs(st["overrides"]), ov_label=st.get("ov_label"),
+                     db=str(h.dir / "state" / f"shared_{st['t']}.db"))
+        else:
+            raise ToolFailure(f"malformed shared case: op {op!r}")
+        steps.append(_enc_plain(e))
+        facts.append(fact)
+    r = h.request("run", _raw=True, source=_SHARED_CHILD, vars={"$": "dict", "v": [["steps", steps]]})
+    if "ok" not in r:
+        raise ToolFailure(f"shared-object scenario: {r}")
+    return r["ok"], facts
+
+
+def _shared_model(ctx: Ctx, c: dict, facts) -> dict:
+    """K side: {label: {global step index: (values, provenance)}} from `c17 chain`, one request per underlying object (the
+    model follows the code: a terminal's configuration IS the object it was given)"""
+    state_dir = str(host().dir / "state" / "tupimage")
+    objs, label_obj = {}, {}          # object key -> [(global step, chain token)], label -> object key
+    for i, st in enumerate(c["steps"]):
+        op = st["op"]
+        if op == "cfg":
+            label_obj[st["c"]] = st["c"]
+            objs[st["c"]] = [(i, None)]
+            continue
+        if op == "new":
+            conf = st["config"]
+            key = label_obj[conf] if isinstance(conf, str) and conf != "DEFAULT" else st["t"]
+            label_obj[st["t"]] = key
+            chain = objs.setdefault(key, [])
+            if isinstance(conf, dict):
+                chain.append((i, f"F:{hexs(facts[i]['path'])}:{entries_tok(conf['file'])}"))
+            kw = list(st.get("kwargs") or []) + ([["provenance", st["kw_label"]]] if st.get("kw_label") is not None else [])
+            ov = list(st.get("overrides") or []) + ([["provenance", st["ov_label"]]] if st.get("ov_label") is not None else [])
+            chain.append((i, f"C:{1 if st.get('tmux') else 0}:{entries_tok([[k, v] for k, v in (st.get('env') or {}).items()])}:"
+                             f"{entries_tok(kw)}:{entries_tok(ov)}"))
+            continue
+        key = label_obj[st["on"]]
+        if op == "toml":
+            objs[key].append((i, f"F:{hexs(facts[i]['path'])}:{entries_tok(st['items'])}"))
+        elif op == "dict":
+            items = list(st["items"]) + ([["provenance", st["label"]]] if st.get("label") is not None else [])
+            objs[key].append((i, f"D:{entries_tok(items)}"))
+        elif op == "envload":
+            objs[key].append((i, f"E:{entries_tok([[k, v] for k, v in st['env'].items()])}"))
+    d = ctx.driver("drv_misc")
+    per_obj = {}
+    for key, chain in objs.items():
+        toks = [t for _, t in chain if t is not None]
+        r = d.ask(f"c17 chain {hexs(state_dir)} " + " ".join(toks)) if toks else "ok "
+        if not r.startswith("ok"):
+            raise ToolFailure(f"driver: {r!r} for chain {toks}")
+        states = [x for x in r[3:].split("#") if x] if toks else []
+        out, k = {}, 0
+        for i, t in chain:
+            if t is None:
+                out[i] = "fresh"
+                continue
+            if k < len(states):
+                out[i] = states[k]
+            k += 1
+        per_obj[key] = out
+    return {"label_obj": label_obj, "per_obj": per_obj}
+
+
+def _parse_state(s: str):
+    if s.startswith("err "):
+        return {"error": s[4:]}
+    vals, prov = {}, {}
+    for item in s.split("|"):
+        k, rest = item.split("=", 1)
+        v, p = rest.rsplit("@", 1)
+        vals[k] = canon_tok(v)
+        prov[k] = bytes.fromhex(p).decode("utf-8", "replace")
+    return {"values": vals, "prov": prov}
+
+
+def check_shared(ctx: Ctx, c: dict):
+    d = ctx.driver("drv_misc")
+    results, facts = run_shared(c)
+    defaults = {n: tok(v) for n, v in _undict(_undict(results[0])["defaults"]).items()}
+    model = _shared_model(ctx, c, facts)
+    prev: dict = {}                      # label -> {opt: (value token, provenance)}
+    k_reported = False
+
+    def prov_ok(layer, name, path, kwl, ovl, p):
+        return d.ask(f"c17 prov {layer} {name} {hexs(path) if path else '-'} {hexs(kwl) if kwl is not None else '_'} "
+                     f"{hexs(ovl) if ovl is not None else '_'} {hexs(p)}") == "1"
+
+    for i, st in enumerate(c["steps"]):
+        op = st["op"]
+        how = st.get("how", "")
+        if op == "new":
+            conf = st["config"]
+            how = "file" if isinstance(conf, dict) else "DEFAULT" if conf == "DEFAULT" else "object" + ("-again" if any(
+                x["op"] == "new" and x["config"] == conf for x in c["steps"][:i]) else "")
+        ctx.count("shared-step:" + op + (":" + how if how else ""))
+        r = _undict(results[i + 1])
+        whole = dict(c, steps=c["steps"][:i + 1])
+        if "error" in r:
+            e = _undict(r["error"])
+            # every generated value is valid: a refusal is at least a broken correspondence (the model refuses nothing here)
+            ctx.mismatch("shared objects: the step raised", whole, {"step": i, "error": e["type"] + ": " + e["msg"][:300]}, "ok")
+            return
+        cur = {}
+        for label, _oid, vals, prov in r["snap"]:
+            vals, prov = _undict(vals), _undict(prov)
+            cur[label] = {n: (tok(vals[n]), prov[n]) for n in vals}
+        # ---- K: every object alive against the model's object it refers to
+        if not k_reported:
+            for label, state in cur.items():
+                key = model["label_obj"][label]
+                upto = [j for j in model["per_obj"][key] if j <= i]
+                ms = model["per_obj"][key][max(upto)]
+                if ms == "fresh":
+                    m = {"values": defaults, "prov": {n: "default" for n in defaults}}
+                else:
+                    m = _parse_state(ms)
+                if "error" in m:
+                    ctx.mismatch("shared objects: model refuses, implementation accepts", whole, "ok", m["error"])
+                    k_reported = True
+                    break
+                bad = {n: {"impl": list(state[n]), "model": [m["values"].get(n), m["prov"].get(n)]} for n in state
+                       if state[n] != (m["values"].get(n), m["prov"].get(n))}
+                if bad:
+                    ctx.mismatch("shared objects: value / provenance of an inspected object", whole,
+                                 {"step": i, "object": label, "differs": dict(list(bad.items())[:4])}, "see differs")
+                    k_reported = True
+                    break
+        # ---- F: the object acted on
+        tgt = st["c"] if op == "cfg" else st["t"] if op == "new" else st["on"]
+        layers = {l: {} for l in LAYERS}
+        path, kwl, ovl, tmux, expand = None, None, None, False, False
+        if op == "cfg":
+            base = {n: (defaults[n], "default") for n in defaults}
+        elif op == "new":
+            conf = st["config"]
+            if isinstance(conf, str) and conf != "DEFAULT":
+                base = prev[conf]
+            else:
+                base = {n: (defaults[n], "default") for n in defaults}
+                if isinstance(conf, dict):
+                    layers["file"] = {k: tok(st["means"]["file"][k]) for k, _ in conf["file"]}
+                    path = facts[i]["path"]
+            layers["env"] = {k: tok(st["means"]["env"][k]) for k in (st.get("env") or {})}
+            layers["kwargs"] = {k: tok(st["means"]["kwargs"][k]) for k, _ in (st.get("kwargs") or [])}
+            layers["overrides"] = {k: tok(st["means"]["overrides"][k]) for k, _ in (st.get("overrides") or [])}
+            kwl, ovl, tmux, expand = st.get("kw_label"), st.get("ov_label"), bool(st.get("tmux")), True
+        else:
+            base = prev[tgt]
+            if op == "toml":
+                layers["file"] = {k: tok(st["means"][k]) for k, _ in st["items"]}
+                path = facts[i]["path"]
+            elif op == "dict":
+                layers["kwargs"] = {k: tok(st["means"][k]) for k, _ in st["items"]}
+                kwl = st.get("label")
+            else:
+                layers["env"] = {k: tok(st["means"][k]) for k in st["env"]}
+        after = cur[tgt]
+        for n in OPTS:
+            if n not in after:
+                continue
+            bits = [1 if n in layers[l] else 0 for l in LAYERS]
+            val, p = after[n]
+            if any(bits):
+                ctx.count("shared-layers-set:" + "".join(map(str, bits)))
+                w = d.ask(f"c17 winner {bits[0]} {bits[1]} {bits[2]} {bits[3]}")
+                want = layers[w][n]
+                inner = p
+                if expand and n == "num_tmux_layers" and want == tok("auto"):
+                    want = tok(1 if tmux else 0)
+                    ctx.count("shared-auto-expanded")
+                    if p.startswith("expanded from 'auto' (") and p.endswith(")"):
+                        inner = p[len("expanded from 'auto' ("):-1]
+                if val != want:
+                    ctx.violation("several objects in one process: the effective value is not the one given by the highest-priority layer "
+                                  "that sets the option for THIS object", whole,
+                                  {"step": i, "object": tgt, "option": n, "winner": w, "effective": val, "expected": want}, key="shared:value")
+                elif not prov_ok(w, n, path, kwl, ovl, inner):
+                    ctx.violation("several objects in one process: the reported provenance does not name the layer in force for THIS object",
+                                  whole, {"step": i, "object": tgt, "option": n, "winner": w, "provenance": p}, key="shared:provenance")
+            else:
+                want_v, want_p = base[n]
+                if expand and n == "num_tmux_layers" and want_v == tok("auto"):
+                    want_v, want_p = tok(1 if tmux else 0), f"expanded from 'auto' ({want_p})"
+                if (val, p) != (want_v, want_p):
+                    ctx.violation("several objects in one process: an option that no layer of this step sets does not keep the value and "
+                                  "provenance of the configuration the step started from", whole,
+                                  {"step": i, "object": tgt, "option": n, "now": [val, p], "started_from": [want_v, want_p]},
+                                  key="shared:untouched-option")
+        # ---- F: every other object alive
+        for label, state in cur.items():
+            if label == tgt or label not in prev:
+                continue
+            for n, pair in state.items():
+                if pair != prev[label][n] and pair != after.get(n):
+                    ctx.violation("several objects in one process: after a step on ANOTHER object, an option's value / provenance is neither "
+                                  "what this object had before nor what the object acted on has (a layer this object never received is "
+                                  "reported, or a value it received is not)", whole,
+                                  {"step": i, "acted_on": tgt, "object": label, "option": n, "before": list(prev[label][n]), "now": list(pair),
+                                   "acted_on_now": list(after.get(n, ()))}, key="shared:other-object")
+                    break
+        prev = cur
 
 
 # ------------------------------------------------------------------------------------------------
@@ -794,6 +1144,105 @@ def float_roundtrip_cases(names, rng, quick: bool):
                    "float_family": True}
 
 
+
+def shared_cases(names, rng, quick: bool):
+    """Scenarios with several objects alive in one process.  A small pool of options per scenario (so that siblings set the
+    same options, or one sets what the other leaves alone); every value valid and given in a form its layer takes
+    (`means` = the native value it stands for).  Skeleton: 1..2 TupimageConfig objects, 0..2 pre-set steps on them, then
+    2..4 constructors — mostly on the SAME object, some on the other object, on "DEFAULT" or on a file — each with its own
+    environment / keyword / config_overrides layers (often none at all: a bare second constructor), with property
+    assignments, further override_from_* calls on the caller's object in between."""
+    from tupimage.tupimage_terminal import TupimageTerminal
+    usable = [n for n in names if valid_values(n, OPTS[n])]
+    props = [n for n in usable if isinstance(getattr(TupimageTerminal, n, None), property)]
+
+    def layer_items(pool, layer, kmax=3):
+        """-> ([[opt, given]…], {opt: means}) for 1..kmax options of the pool"""
+        items, means = [], {}
+        for n in rng.sample(pool, min(len(pool), rng.randint(1, kmax))):
+            v = rng.choice(valid_values(n, OPTS[n]))
+            lv = as_layer_value(layer, v, rng)
+            if lv is None:
+                continue
+            items.append([n, lv])
+            means[n] = v
+        return items, means
+
+    for _ in range(110 if quick else 1100):
+        pool = rng.sample(usable, rng.randint(3, 6))
+        if rng.random() < 0.5:
+            pool = list(dict.fromkeys(pool + rng.sample(props, 2)))
+        if rng.random() < 0.3 and "num_tmux_layers" in usable and "num_tmux_layers" not in pool:
+            pool.append("num_tmux_layers")
+        steps = [{"op": "cfg", "c": "c0"}]
+        cfgs = ["c0"]
+        if rng.random() < 0.25:
+            steps.append({"op": "cfg", "c": "c1"})
+            cfgs.append("c1")
+
+        def pre_step(on):
+            r = rng.random()
+            if r < 0.4:
+                items, means = layer_items(pool, "file")
+                if items:
+                    steps.append({"op": "toml", "on": on, "how": rng.choice(["string", "string", "file"]), "path": rng.choice(["base.toml", "/etc/tupimage/site.toml"]),
+                                  "items": items, "means": means})
+            elif r < 0.8:
+                items, means = layer_items(pool, "kwargs")
+                if items:
+                    steps.append({"op": "dict", "on": on, "how": rng.choice(["dict", "override"]), "label": rng.choice([None, None, "set by the application"]),
+                                  "items": items, "means": means})
+            else:
+                items, means = layer_items(pool, "env", 2)
+                if items:
+                    steps.append({"op": "envload", "on": on, "env": dict(items), "means": means})
+
+        for on in cfgs:
+            for _k in range(rng.choice([0, 0, 1, 1, 2])):
+                pre_step(on)
+        terms = []
+        for j in range(rng.choice([2, 2, 3, 3, 4])):
+            r = rng.random()
+            if r < 0.68 or j == 0:
+                conf = "c0"
+            elif r < 0.78 and len(cfgs) > 1:
+                conf = "c1"
+            elif r < 0.9:
+                conf = "DEFAULT"
+            else:
+                items, means_f = layer_items(pool, "file")
+                conf = {"file": items}
+            st = {"op": "new", "t": f"t{j}", "config": conf, "env": {}, "kwargs": [], "overrides": None, "tmux": rng.random() < 0.15,
+                  "kw_label": None, "ov_label": None, "means": {"env": {}, "kwargs": {}, "overrides": {}}}
+            if isinstance(conf, dict):
+                st["means"]["file"] = means_f
+            bare = rng.random() < 0.15            # no layer at all: the configuration as given
+            if not bare:
+                if rng.random() < 0.45:
+                    items, means = layer_items(pool, "env", 2)
+                    st["env"], st["means"]["env"] = dict(items), means
+                if rng.random() < 0.65:
+                    st["kwargs"], st["means"]["kwargs"] = layer_items(pool, "kwargs")
+                    st["kw_label"] = rng.choice([None, None, "set by the caller"])
+                if rng.random() < 0.4:
+                    st["overrides"], st["means"]["overrides"] = layer_items(pool, "overrides", 2)
+                    st["ov_label"] = rng.choice([None, "set via command line"])
+            steps.append(st)
+            terms.append(st["t"])
+            # between constructors: the caller goes on using its objects
+            r = rng.random()
+            if r < 0.2:
+                t = rng.choice(terms)
+                ps = [n for n in pool if n in props]
+                if ps:
+                    n = rng.choice(ps)
+                    v = rng.choice([x for x in valid_values(n, OPTS[n]) if x != "auto"] or valid_values(n, OPTS[n]))
+                    steps.append({"op": "dict", "on": t, "how": "prop", "label": None, "items": [[n, v]], "means": {n: v}})
+            elif r < 0.35:
+                pre_step(rng.choice(cfgs))
+        yield {"k": "shared", "steps": steps}
+
+
 def subsets():
     for m in range(1, 16):
         yield [LAYERS[i] for i in range(4) if m >> i & 1]
@@ -818,6 +1267,8 @@ def cases(ctx: Ctx):
     q = ctx.quick
     OPTS = option_classes()
     names = list(OPTS)
+    # 0. several configuration objects and terminals alive in one process (first: never cut by the time budget)
+    yield from shared_cases(names, rng, q)
     # 1. every option x every subset of the four layers, distinct valid values per layer
     for name in names:
         cls = OPTS[name]
@@ -950,7 +1401,14 @@ def run(ctx: Ctx):
                 "2.5e-7, subnormal / smallest normal / largest finite, 2^53+2, both one-ulp neighbours of 13 round decimals, the repr "
                 "exponent-form boundaries 1e16 / 1e-5, negative, random mantissas at magnitudes 2^-80..2^20 and 1e-12..1e12), every value on "
                 "every float option, given through kwargs / config_overrides / file literal / environment text, compared bit-exactly (exact "
-                "rational of the double) after dump -> load. distinct = canonical JSON of the case; non-trivial = every case")
+                "rational of the double) after dump -> load. SHARED OBJECTS: one process keeps 1-2 TupimageConfig objects (pre-set through "
+                "override_from_toml_string / _file, override_from_dict / override, override_from_env) and 2-4 terminals alive - the same "
+                "object given to several constructors, each with its own environment / keyword / config_overrides layers or none, "
+                "terminals from 'DEFAULT' or a file in between, property assignments and further override_* calls afterwards; after "
+                "every step every object alive (each terminal's configuration and the caller's objects) is inspected: the object "
+                "acted on against winner / provenanceNames over the layers of that step on top of the configuration it started "
+                "from, every other object against what it had before (or, being the same object, what the object acted on has). "
+                "distinct = canonical JSON of the case; non-trivial = every case")
     try:
         corpus_dir = Path(__file__).resolve().parent.parent / "corpus" / "C17"
         if corpus_dir.is_dir():
@@ -969,6 +1427,10 @@ def run(ctx: Ctx):
     finally:
         close_host()
     ctx.assumptions += [
+        "a TupimageConfig object passed as config= may be adopted by the terminal (the unchanged constructor works on the caller's "
+        "object: the terminal's effective configuration and the caller's object are then one object, and the layers of every "
+        "constructor it is given to are layers given to it); what is judged is that no object reports a value / provenance pair that "
+        "neither it nor the object acted on has",
         "generated strings contain no backslashes (toml 0.10.2 mis-escapes a backslash followed by x — third-party)",
         "numeric strings stay inside the modelled grammar of int()/float(): ASCII sign/digits/underscores/point/exponent and surrounding "
         "ASCII whitespace; no inf/nan, no non-ASCII digits",
